@@ -689,7 +689,7 @@ theorem toStyledText_spec (n : Name) (omitDot : Bool) (origin : Option Name) (re
              | some o => if o = [] then Except.ok n else if rel then relativize n o else derelativize n o) with
       | .error e => .error e
       | .ok m => .ok (if omitDot then toTextOmit m else toText m) := by
-  unfold toStyledText chooseRelativity
+  unfold toStyledText chooseRel
   cases origin <;> rfl
 
 /-- non-vacuity: `www.Ex.` is absolute, well formed and not the root -/
